@@ -80,6 +80,9 @@ class FileFormat():
         # Set fields' serializers
         for field in schema.fields:
             serializer = self.SERIALIZERS.get(field.type, default_serializer)
+            if field.type == 'datetime' and '%z' in str(field.descriptor.get('format')) \
+                    and self.SERIALIZERS.get(field.type) not in (None, identity):
+                serializer = self.with_offset(serializer)
             if self.temporal_format_property:
                 if field.type in ['datetime', 'date', 'time']:
                     format = field.descriptor.get(self.temporal_format_property, None)
@@ -91,16 +94,28 @@ class FileFormat():
                         serializer = partial(strftime, format=format)
             field.descriptor['serializer'] = serializer
 
+    @staticmethod
+    def with_offset(serializer):
+        def func(value):
+            return serializer(value) + value.strftime('%z')
+        return func
+
     @classmethod
     def prepare_resource(cls, resource):
         schema = resource.descriptor['schema']
         for field in schema['fields']:
             dialect = cls.PYTHON_DIALECT.get(field['type'], {})
+            serializer = cls.SERIALIZERS.get(field['type'], str)
+            if field['type'] == 'datetime' and '%z' in str(field.get('format')) and 'format' in dialect \
+                    and cls.SERIALIZERS.get(field['type']) not in (None, identity):
+                # zone-aware values keep their UTC offset
+                dialect = dict(dialect, format=dialect['format'] + '%z')
+                serializer = cls.with_offset(serializer)
             if dialect:
                 # constraint values follow the serialisation the written file is declared with
                 native = native_constraints(field)
                 field.update(dialect)
-                write_constraints(field, native, cls.SERIALIZERS.get(field['type'], str))
+                write_constraints(field, native, serializer)
         if isinstance(cls.NULL_VALUE, str) and schema.get('missingValues') == []:
             # nulls have to be written somehow: record the marker that is used
             schema['missingValues'] = [cls.NULL_VALUE]
